@@ -82,6 +82,13 @@ var c04Fixed = []string{
 	"catch(catch(throw(error(my_error, _)), error(my_error, mine), w(inner)), _, w(outer))", "catch(throw(error(e, _)), error(e, C), (var(C) -> w(free) ; w(bound(C))))",
 	"catch(catch(throw(error(my_error, _)), error(my_error, throw/1), w(inner)), _, w(outer))", "catch(throw(error(e, C0)), error(e, C), true), w(C0-C)", "X = f(_), catch(throw(error(X, _)), error(f(a), ctx), w(X))",
 	"catch(catch(throw(error(e1, _)), error(e1, c1), throw(error(e2, _))), error(e2, c2), w(got))", "catch(h7, error(my_error, mine), w(inner))",
+	// an all-solutions call abandoned by a ball that is caught INSIDE the goal of an outer all-solutions call, which goes on collecting
+	"findall(X, (m(X), catch(findall(Y, (n(Y), X > 1, throw(bad(X, Y))), _), bad(_, _), true)), L), w(L)",
+	"findall(X-L1, (m(X), catch(findall(Y, (m(Y), (Y > X -> throw(big(Y)) ; true)), L1), big(B), L1 = caught(B))), L), w(L)",
+	"bagof(X, (m(X), catch(setof(Y, (n(Y), X =:= 2, throw(s(Y))), _), s(_), true)), L), w(L)",
+	"findall(X, (m(X), catch(findall(Y, (n(Y), atom_length(X, Y)), _), error(_, _), true)), L), findall(Z, m(Z), L2), w(L-L2)",
+	"catch(findall(Y, (m(Y), Y > 1, throw(out(Y))), _), out(V), true), findall(Z, m(Z), L), w(V-L)",
+	"findall(X, (m(X), \\+ catch(findall(Y, (n(Y), throw(t(X))), _), t(2), fail)), L), w(L)",
 }
 
 const c04Base = `
